@@ -39,4 +39,3 @@ macro_rules! harness {
 }
 harness!(from_bundle_s_00, 34, true, P00);
 harness!(from_bundle_n_00, 34, false, P00);
-harness!(from_bundle_s_10, 34, true, P10);
